@@ -114,6 +114,7 @@ struct Run {
   std::map<std::string, int64_t> unconstrained; // oracle abstentions
   bool nontrivial = false;
   Json::Value sample; // compact description for evidence
+  Json::Value replayPlan; // clause -> standalone plan reproducing it
   uint64_t access_idx = 0; // file accesses in the current tick
   uint64_t access_total = 0;
 };
@@ -147,6 +148,11 @@ struct Prop {
   std::function<Json::Value(Rng&)> gen;
   // execute the plan in this process, record violations into R
   std::function<void()> run;
+  // optional: plan as a function of the run index (seedOf(k) = seed of the
+  // k-th run of the batch); used by enumerating drivers that shard one
+  // scenario over several runs
+  std::function<Json::Value(std::function<uint64_t(uint64_t)>, uint64_t)>
+      genIndexed = nullptr;
 };
 void registerProp(Prop p);
 const Prop* findProp(const std::string& id);
